@@ -159,6 +159,25 @@ def _is_square(t):
     return isinstance(t, T.Poly) and len(t.terms) == 1 and all(c > 0 and _mono_square(m) for m, c in t.terms.items())
 
 
+def _piece_lengths(sizes, tv):
+    """sizes = [min(n, L - s) for s in range(0, L, n)] with L = len(tv) -> the VNum n; None otherwise"""
+    from .ops import val_of_dim
+
+    el, rng = sizes.obj.elem, getattr(sizes.obj, "comp_iter", None)
+    lt = num_term(val_of_dim(tv.shape[0])) if tv.shape and tv.shape[0] is not UNK else None
+    et = num_term(el) if el is not None else None
+    if et is None or lt is None or not (isinstance(rng, tuple) and rng and rng[0] == "range" and rng[1] == T.ZERO and rng[2] == lt):
+        return None
+    n_t = rng[3]
+    a = et.single_atom()
+    isy = [s_ for s_ in et.syms() if s_.startswith("i@")]
+    if not (isinstance(a, T.App) and a.op == "min" and len(a.args) == 2 and len(isy) == 1):
+        return None
+    if set(map(repr, a.args)) == {repr(n_t), repr(lt - T.sym(isy[0]))}:
+        return VNum("int", n_t, pos=True)
+    return None
+
+
 def split_list(it, tv, size, dim, node):
     """x.split(n) / torch.split(x, n) along axis 0: the views x[i : i + n] for i in range(0, len(x), n) - the same value a
     comprehension over that range builds (one generic element and the range it runs over)."""
@@ -167,6 +186,12 @@ def split_list(it, tv, size, dim, node):
 
     if dim is not None and const_of(dim) != (True, 0):
         return None
+    if isinstance(size, VList) and size.obj.items is None and tv.shape:
+        # a list of piece lengths [min(n, L - s) for s in range(0, L, n)] (L the length of the axis): the pieces of split(n)
+        n_ = _piece_lengths(size, tv)
+        if n_ is None:
+            return None
+        size = n_
     nt = num_term(size)
     if nt is None or not isinstance(tv, VTens) or not tv.shape:
         return None
@@ -546,8 +571,16 @@ def tensor_method(it, tv, name, args, kwargs, node):
         new_shape = None
         if shape is not None and len(reps) >= len(shape):
             src = (1,) * (len(reps) - len(shape)) + tuple(shape)
-            new_shape = tuple(s if r == 1 else (r if s == 1 else UNK) for s, r in zip(src, reps))
+            new_shape = tuple(s if r == 1 else (r if s == 1 else (dim_mul([r, s]) if UNK not in (s, r) else UNK)) for s, r in zip(src, reps))  # r copies of the axis one after the other: the copy index is the outer one
         r = it.fresh(T.app("repeat", t, tuple(str(x) for x in reps)) if t is not None else None, new_shape, kind, node)
+        r.obj.valkind = tv.obj.valkind
+        return r
+    if name == "repeat_interleave" and len(args) == 1 and num_term(args[0]) is not None and (kwargs.get("dim") is None or const_of(kwargs.get("dim")) == (True, 0)) \
+            and shape is not None and (len(shape) == 1 or kwargs.get("dim") is not None):
+        # every entry (row) repeated n times in place: x0 x0 .. x1 x1 ..
+        n_ = dim_of(args[0])
+        new_shape = ((dim_mul([shape[0], n_]) if UNK not in (shape[0], n_) else UNK),) + tuple(shape[1:])
+        r = it.fresh(T.app("repeat_interleave", t, num_term(args[0])) if t is not None else None, new_shape, kind, node)
         r.obj.valkind = tv.obj.valkind
         return r
     if name == "roll":
@@ -607,9 +640,29 @@ def tensor_method(it, tv, name, args, kwargs, node):
     if name == "backward":
         it.effect("grad", tv.obj, node, "backward")
         return VConst(None)
-    # unknown pure method: fresh opaque result
+    if name == "unflatten" and len(args) == 2 and shape is not None and const_of(args[0])[0] and isinstance(const_of(args[0])[1], int):
+        # one axis split into several, in row-major order: a view (for every memory layout)
+        ax = const_of(args[0])[1]
+        ax = ax + len(shape) if ax < 0 else ax
+        sizes = it.concrete_items(args[1])
+        if sizes is not None and 0 <= ax < len(shape):
+            dims = [dim_of(x) for x in sizes]
+            new_shape = tuple(shape[:ax]) + tuple(dims) + tuple(shape[ax + 1:])
+            return VTens(tv.obj, tv.view + (("op", "unflatten", ax, tuple(str(d) for d in dims)),), new_shape)
+    if name in ("movedim", "moveaxis") and len(args) == 2 and shape is not None and all(const_of(a)[0] and isinstance(const_of(a)[1], int) for a in args):
+        src_, dst_ = const_of(args[0])[1], const_of(args[1])[1]
+        r_ = len(shape)
+        src_, dst_ = (src_ + r_ if src_ < 0 else src_), (dst_ + r_ if dst_ < 0 else dst_)
+        if 0 <= src_ < r_ and 0 <= dst_ < r_:
+            order = [k_ for k_ in range(r_) if k_ != src_]
+            order.insert(dst_, src_)
+            return VTens(tv.obj, tv.view + (("op", "permute", tuple(order)),), tuple(shape[k_] for k_ in order))
+    # unknown pure method: fresh opaque result (which may be a view of the tensor: reshaping / selecting methods are)
     it.notes.append((it.site(node), "unknown tensor method %s" % name))
-    return it.fresh(T.app("m:" + name, t, *[_argterm(a) for a in args]) if t is not None else None, None, kind, node)
+    r = it.fresh(T.app("m:" + name, t, *[_argterm(a) for a in args]) if t is not None else None, None, kind, node)
+    r.obj.may_alias.add(tv.obj)
+    r.obj.maybe_view = True
+    return r
 
 
 def _argterm(a):
